@@ -480,6 +480,70 @@ def phRead (cfg : PhCfg) (lines : List Str) : Except Err (List (Str × Str)) :=
       | .ok st => if st.processed != ntax then .error .count else .ok st.rows
     | _ => .error .header
 
+
+/-! ### continuous matrices: cells are decimal tokens, compared numerically -/
+/-- a decimal number ±mant·10^exp -/
+structure Dec where
+  neg : Bool
+  mant : Nat
+  exp : Int
+  deriving DecidableEq, Repr
+
+/-- strip trailing zeros of the mantissa into the exponent (fuel: number of digits); zero is `+0e0` -/
+def Dec.normFuel : Nat → Nat → Int → Nat × Int
+  | 0, m, e => (m, e)
+  | f + 1, m, e => if m != 0 && m % 10 == 0 then Dec.normFuel f (m / 10) (e + 1) else (m, e)
+
+def Dec.norm (d : Dec) : Dec :=
+  if d.mant == 0 then ⟨false, 0, 0⟩ else
+  let r := Dec.normFuel d.mant d.mant d.exp
+  ⟨d.neg, r.1, r.2⟩
+
+/-- numeric equality of two decimal tokens -/
+def Dec.same (a b : Dec) : Bool := a.norm == b.norm
+
+def spanDigits : Str → Str × Str
+  | [] => ([], [])
+  | c :: cs => if c.isDigit then let r := spanDigits cs; (c :: r.1, r.2) else ([], c :: cs)
+
+def signOf : Str → Bool × Str
+  | '-' :: r => (true, r)
+  | '+' :: r => (false, r)
+  | s => (false, s)
+
+/-- `float(token)` for the decimal syntax Python's `repr`/`str` of a finite float produces (and the usual variants):
+`[+-] digits [. digits] [(e|E) [+-] digits]` with at least one mantissa digit -/
+def parseDec (s : Str) : Option Dec :=
+  let (neg, s) := signOf s
+  let (d1, s) := spanDigits s
+  let (d2, s) := match s with
+    | '.' :: r => spanDigits r
+    | _ => ([], s)
+  if d1.isEmpty && d2.isEmpty then none else
+  let mant := digitsVal (d1 ++ d2)
+  match s with
+  | [] => some ⟨neg, mant, -(d2.length : Int)⟩
+  | c :: r =>
+    if c == 'e' || c == 'E' then
+      let (eneg, r) := signOf r
+      let (de, rest) := spanDigits r
+      if de.isEmpty || !rest.isEmpty then none
+      else some ⟨neg, mant, (if eneg then -(digitsVal de : Int) else (digitsVal de : Int)) - (d2.length : Int)⟩
+    else none
+
+/-- a row of continuous values as the writers lay it out: NEXUS writes every value followed by a blank, PHYLIP joins
+the values with single blanks -/
+def contRender (trailing : Bool) : List Str → Str
+  | [] => []
+  | [t] => if trailing then t ++ [' '] else t
+  | t :: ts => t ++ ' ' :: contRender trailing ts
+
+/-- `_read_continuous_character_values` / `_parse_sequence_from_line` (continuous): white-space separated tokens, each
+of which must be a number -/
+def contRead (text : Str) : Except Err (List Str) :=
+  let ws := wsWords text
+  if ws.all (fun t => (parseDec t).isSome) then .ok ws else .error .invalidSymbol
+
 /-! ### FASTA -/
 def wrap70 (col : Nat) : Str → Str
   | [] => []
@@ -543,6 +607,27 @@ def nexmlChars (colId : Nat → Nat) (rowLens : List Nat) : List Nat :=
 
 def nexmlWriteRow (colId : Nat → Nat) (cells : List α) : List (Nat × α) :=
   (List.range cells.length).map colId |>.zip cells
+
+
+/-! ### NeXML data sets: `otus` id references -/
+/-- ids the writer hands out (`_get_nexml_id`: "d" followed by a counter value) -/
+def nexmlId (k : Nat) : Str := 'd' :: natStr k
+
+/-- `_id_taxon_namespace_map[otus_id]`: the `<otus>` element a `<characters otus=…>` / `<trees otus=…>` refers to
+(ids are unique in a well-formed document; an unknown or ambiguous reference is an error) -/
+def resolveOtus (ids : List Str) (ref : Str) : Except Err Nat :=
+  match (List.range ids.length).filter (fun i => ids[i]? == some ref) with
+  | [i] => .ok i
+  | _ => .error .other
+
+/-- namespaces get the ids of counters `ks`; block `b` (attached to namespace `b`) is written with that id as `otus=` -/
+def nexmlWriteRefs (ks : List Nat) (blocks : List Nat) : List Str × List (Option Str) :=
+  (ks.map nexmlId, blocks.map (fun b => (ks[b]?).map nexmlId))
+
+def nexmlReadRefs (w : List Str × List (Option Str)) : List (Except Err Nat) :=
+  w.2.map (fun r => match r with
+    | some r => resolveOtus w.1 r
+    | none => .error .other)
 
 /-! ### TITLE / LINK -/
 /-- `_link_blocks` (repaired): titles are written iff needed (None) or not suppressed (False) -/
